@@ -91,7 +91,7 @@ func callNamed(info *types.Info, e ast.Expr, name string) *ast.CallExpr {
 	if !ok {
 		return nil
 	}
-	if f := calleeOf(info, call); f != nil && f.Name() == name {
+	if f := calleeOf(info, call); f != nil && fname(f) == name {
 		return call
 	}
 	return nil
@@ -346,9 +346,9 @@ func (g guard) String() string {
 func lastSel(e ast.Expr) string {
 	switch x := ast.Unparen(e).(type) {
 	case *ast.SelectorExpr:
-		return x.Sel.Name
+		return canonId(x.Sel.Name)
 	case *ast.Ident:
-		return x.Name
+		return canonId(x.Name)
 	case *ast.CallExpr:
 		return lastSel(x.Fun)
 	case *ast.IndexExpr:
@@ -403,7 +403,7 @@ func atomMatches(fn *Func, a *Atom, g guard) bool {
 	switch g.kind {
 	case gCall:
 		if call, ok := e.(*ast.CallExpr); ok {
-			if f := calleeOf(info, call); f != nil && f.Name() == g.name {
+			if f := calleeOf(info, call); f != nil && fname(f) == g.name {
 				return a.Pol == g.pol
 			}
 		}
@@ -498,7 +498,7 @@ func atomMatches(fn *Func, a *Atom, g guard) bool {
 						return a.Pol == g.pol
 					}
 				case *ast.CallExpr:
-					if f := calleeOf(info, r); f != nil && f.Name() == g.name {
+					if f := calleeOf(info, r); f != nil && fname(f) == g.name {
 						return a.Pol == g.pol
 					}
 				}
@@ -642,7 +642,7 @@ func guardHolds(p5c *p5, fn *Func, at ast.Node, g guard) bool {
 		found := false
 		ast.Inspect(fn.Body, func(n ast.Node) bool {
 			if call, ok := n.(*ast.CallExpr); ok {
-				if f := calleeOf(fn.Info(), call); f != nil && f.Name() == g.name && fn.Dominates(call, at) && call != at {
+				if f := calleeOf(fn.Info(), call); f != nil && fname(f) == g.name && fn.Dominates(call, at) && call != at {
 					if g.rhs == "" {
 						found = true
 					} else {
@@ -718,7 +718,7 @@ type row struct {
 
 func bareFuncName(fn *Func) string {
 	if fn.Obj != nil {
-		return fn.Obj.Name()
+		return fname(fn.Obj)
 	}
 	return fn.Name
 }
@@ -804,7 +804,7 @@ func runRows(prop string) func(p *Prog, r *Report) {
 					ok := false
 					if fn.Obj != nil {
 						if sig := fn.Obj.Type().(*types.Signature); sig.Recv() != nil {
-							if n := namedOf(sig.Recv().Type()); n != nil && n.Obj().Name() == rw.recv {
+							if n := namedOf(sig.Recv().Type()); n != nil && canonId(n.Obj().Name()) == rw.recv {
 								ok = true
 							}
 						}
